@@ -785,6 +785,13 @@ def oracle_c18(run, ops, impl):
         if ob.startswith("panic"):
             reg = parse_reg(ob) if "REG=" in ob else reg
             continue
+        if a[1] == "setadmin":
+            # wasm admin change (not a devgas message): the oracle follows the new owner
+            if a[2] in contracts:
+                contracts[a[2]]["admin"] = "" if a[3] in ("-", "_") else a[3]
+            if parse_reg(ob) != reg:
+                out.append(V("C18:admin-change-changed-registry", {"line": i + 1, "op": op}))
+            continue
         res = ob.split()[0]
         new = parse_reg(ob)
         contract, sender = a[2], a[3]
